@@ -1,5 +1,5 @@
 """property id -> suites, evidence rule, trusted base additions"""
-from suites import props_tree, prims, monitor, legacy, c04, sk, multiround
+from suites import props_tree, prims, monitor, legacy, c04, sk, multiround, cxx
 
 RULE_TREE = ("random operation histories (weighted words over fit / refine / recluster / set_merge / setters / "
              "delete_internal_nodes / reset / malformed fit; feature counts 1..24, 63, 64, 65, 100, 256; prototype+noise, "
@@ -46,6 +46,13 @@ PROPS: dict = {
     "C10": {"suites": [prims.suite_merge], "rule": RULE_MERGE},
     "C11": {"suites": [prims.suite_isim], "rule": RULE_PRIM},
     "C12": {"suites": [prims.suite_bits], "rule": RULE_PRIM},
+    "C13": {"suites": [cxx.suite_kernels, cxx.suite_transcription, cxx.suite_end_to_end],
+            "rule": "csrc/similarity.cpp compiled out of tree on every run (g++ -O2 -std=c++17 against the pybind11 stand-in of harness/cxx) "
+                    "and called through ctypes: every kernel on 8-byte-aligned and misaligned buffers, row widths 1..256 bytes on both sides "
+                    "of the 64-byte fast path, counts up to 2^33, compared bit for bit (i) with the NumPy fallback and (ii) with the Lean "
+                    "transcription of the C++ (driver command CXX); end to end: the estimator with the compiled kernels re-bound where the "
+                    "import switch binds them vs the fallback run; non-trivial = every kernel case / run with a multi-member cluster and a split",
+            "proof_modules": ["BBProps.C13", "BBProofs.Kernels", "BBModel.Kernels"]},
     "C14": {"suites": [multiround.suite_c14], "rule": RULE_MR + "; crash stream: for each small configuration a crash is injected before (or "
             "half-way through) every file effect of bblean.multiround (buffer-file write, pickle dump, rename, unlink), in a directory "
             "that already holds the outputs of an earlier run; then re-run to completion with same / changed-threshold / fewer-files "
